@@ -357,11 +357,40 @@ def dangling_cases(ctx):
                               {'dangling': text, 'n': n})
 
 
+def removal_link_cases(ctx, n, extra=()):
+    """a link applies wherever its definition matches the residues as the blocks define them: an atom that another link
+    removes is still matched (the interactions on it go with the atom), and a link defined later overrides"""
+    import itertools
+    rng = ctx.rng
+    todo = list(extra)
+    for _ in range(n):
+        case = ffgen.gen_removal_ff(rng)
+        order = list(rng.choice(list(itertools.permutations(range(len(case['links']))))))
+        todo.append({'case': case, 'order': order})
+    for item in todo:
+        case, order = item['case'], item['order']
+        text = ffgen.removal_ff_text(case, order)
+        out = ffgen.run_pipeline(text, ffgen.removal_graph(case))
+        ctx.case(('removal_links', text, case['nres']), nontrivial=True, sample={'links': [case['links'][i]['name'] for i in order], 'nres': case['nres']})
+        ctx.feature('links_naming_an_atom_another_link_removes')
+        if 'error' in out:
+            ctx.violation('spec', f"the pipeline failed on links around an atom removal: {out['error']}", {'removal_links': item})
+            continue
+        exp, obs = ffgen.removal_expected(case), ffgen.removal_observed(out)
+        if exp != obs:
+            miss = sorted(set(exp[1]) - set(obs[1]))[:2]
+            extra_ = sorted(set(obs[1]) - set(exp[1]))[:2]
+            ctx.violation('spec', f"C02 fails on the implementation: links {[case['links'][i]['name'] for i in order]}"
+                          f"{' + override' if case['override'] else ''} on MON:{case['nres']}: the definitions give interactions {miss} that are absent, "
+                          f"and the molecule carries {extra_} that they do not give (atoms equal: {exp[0] == obs[0]})", {'removal_links': item})
+
+
 def run(ctx):
     ctx.correspondences += ['MapToMolecule + ApplyLinks vs model/Links.v (interactions per section, replaced attributes, edges)',
                             'implementation judged directly (soundness, next-residue completeness, chain end)',
                             'dangling .itp interactions through gen_params']
     rng = ctx.rng
+    removal_link_cases(ctx, ctx.n(10, 100))
     cases = [(c['ff'], c['graph']) for _, c in core.corpus_cases('C02')]
     for _ in range(ctx.n(160, 1600)):
         if rng.random() < 0.1:
@@ -471,6 +500,11 @@ def search(ctx):
 
 def replay(ctx, data):
     print(json.dumps(data, indent=1, default=str)[:3000])
+    if 'removal_links' in data:
+        before = len(ctx.violations)
+        removal_link_cases(ctx, 0, extra=[data['removal_links']])
+        print('replay:', ctx.violations[-1]['what'][:400] if len(ctx.violations) > before else 'statement satisfied on this input')
+        return 1 if len(ctx.violations) > before else 0
     if 'pattern_ff' in data:
         out = ffgen.run_pipeline(data['pattern_ff'], data['graph'])
         print('replay: angles after link application', out.get('links', {}).get('inters', {}).get('angles'))
